@@ -28,27 +28,37 @@ func TestC04Proc(t *testing.T) {
 	var exp []beh
 	for _, proto := range []string{"netrpc", "grpc"} {
 		for _, launch := range []string{"cmd", "runner", "reattach"} {
-			for _, b := range behs {
-				ops := []string{"new", "start", "client", "dispense", "set:1"}
-				if launch == "reattach" {
-					ops = append(ops, "reattach:0", "start", "client", "dispense", "get")
+			for _, b0 := range behs {
+				for _, killOp := range []string{"kill", "killconc:4"} {
+					b := b0
+					if killOp != "kill" {
+						if b.name == "exits-after-1s" || b.name == "frozen" {
+							continue // concurrent Kill: at once / ignoring / already crashed
+						}
+						b.name += " (4 concurrent Kills)"
+						b.marker = false // which of the racing Kills wins decides whether the cleanup ran: not judged here
+					}
+					ops := []string{"new", "start", "client", "dispense", "set:1"}
+					if launch == "reattach" {
+						ops = append(ops, "reattach:0", "start", "client", "dispense", "get")
+					}
+					ops = append(ops, b.pre...)
+					ops = append(ops, killOp, "proc?")
+					if launch == "reattach" {
+						ops = append(ops, "kill:0", "proc?")
+					}
+					hl := launch
+					if launch == "reattach" {
+						hl = "cmd"
+					}
+					cells = append(cells, Cell{
+						Name:   fmt.Sprintf("%s launch=%s plugin=%s", proto, launch, b.name),
+						Plugin: PluginConf{CookieKey: cookieKey, CookieValue: cookieVal, Legacy: 1, LegacyProto: proto, GRPCServer: true, TLS: "none", ExitMarker: "auto", ExitDelayMs: b.delayMs},
+						Host:   HostConf{Allowed: []string{"netrpc", "grpc"}, TLS: "none", Launch: hl, Legacy: 1, SkipHostEnv: true},
+						Ops:    ops,
+					})
+					exp = append(exp, b)
 				}
-				ops = append(ops, b.pre...)
-				ops = append(ops, "kill", "proc?")
-				if launch == "reattach" {
-					ops = append(ops, "kill:0", "proc?")
-				}
-				hl := launch
-				if launch == "reattach" {
-					hl = "cmd"
-				}
-				cells = append(cells, Cell{
-					Name:   fmt.Sprintf("%s launch=%s plugin=%s", proto, launch, b.name),
-					Plugin: PluginConf{CookieKey: cookieKey, CookieValue: cookieVal, Legacy: 1, LegacyProto: proto, GRPCServer: true, TLS: "none", ExitMarker: "auto", ExitDelayMs: b.delayMs},
-					Host:   HostConf{Allowed: []string{"netrpc", "grpc"}, TLS: "none", Launch: hl, Legacy: 1, SkipHostEnv: true},
-					Ops:    ops,
-				})
-				exp = append(exp, b)
 			}
 		}
 		// never completed the handshake
@@ -89,6 +99,9 @@ func TestC04Proc(t *testing.T) {
 		}
 		lastProc := ""
 		for _, o := range r.Ops {
+			if strings.HasPrefix(o.Op, "killconc") && o.Err != "" {
+				bad("PANIC", "%s", o.Err)
+			}
 			if strings.HasPrefix(o.Op, "kill") && o.Ms > b.maxKillMs {
 				bad("T", "%s took %d ms", o.Op, o.Ms)
 			}
@@ -108,7 +121,7 @@ func TestC04Proc(t *testing.T) {
 		if b.marker && !r.ExitMarker {
 			bad("S", "plugin exits within the grace period but its cleanup did not complete (force-killed?)")
 		}
-		if b.name == "ignores-shutdown" && r.ExitMarker {
+		if strings.HasPrefix(b.name, "ignores-shutdown") && r.ExitMarker {
 			bad("S", "plugin that ignores the request for 60 s was not force-killed after the grace period")
 		}
 		out.Outcomes[b.name+" "+lastProc]++
